@@ -16,8 +16,8 @@ pub fn spec() -> PropSpec {
         assumptions: &["both sides are real code paths (differential oracle); error equality is by Debug rendering"],
         run,
         replay,
-        describe_wal: None,
-        run_wal: None,
+        describe_wal: Some(progx::wal_describe),
+        run_wal: Some(progx::wal_run),
         both_profiles: false,
         workers: 0,
     }
@@ -74,6 +74,29 @@ fn check_bytes_inner(bytes: &[u8], rep: &mut Report) {
             let ser: Vec<u8> = asm::to_bytes(l.iter().cloned()).collect();
             if from_iter.bytecode() != ser.as_slice() || from_iter.ops().collect::<Vec<_>>() != *l {
                 fail("mapped.from_iter", format!("{:?} vs {:?}", from_iter.bytecode(), ser), rep);
+            }
+            // incremental building: default() + push_op must give the very same mapping
+            let mut pushed: BytecodeMapped = Default::default();
+            for op in l.iter().cloned() {
+                pushed.push_op(op);
+            }
+            if pushed != from_iter || pushed.ops().collect::<Vec<_>>() != *l || pushed.bytecode() != ser.as_slice() {
+                fail("mapped.push_op", format!("default()+push_op gives ops {:?} / bytes {}", pushed.ops().collect::<Vec<_>>(), hex::encode(pushed.bytecode())), rep);
+            }
+            // collecting from an iterator that only knows a very loose upper bound on its length
+            struct Loose<I>(I);
+            impl<I: Iterator> Iterator for Loose<I> {
+                type Item = I::Item;
+                fn next(&mut self) -> Option<I::Item> {
+                    self.0.next()
+                }
+                fn size_hint(&self) -> (usize, Option<usize>) {
+                    (0, Some(usize::MAX))
+                }
+            }
+            let loose: BytecodeMapped = Loose(l.iter().cloned()).collect();
+            if loose != from_iter {
+                fail("mapped.from_iter", "collecting from an iterator with a loose size_hint gives a different mapping".into(), rep);
             }
             if from_iter != *o && ser == bytes {
                 fail("mapped.from_iter", "FromIterator result differs from try_from of the same bytes".into(), rep);
